@@ -145,12 +145,12 @@ func newStats() *Stats {
 // Run, tasks, hooks.
 
 type Run struct {
-	Prop    string
-	Profile string
-	Seed    uint64
+	Prop     string
+	Profile  string
+	Seed     uint64
 	SweepPos int // position inside a sweep (fault_enumeration profiles), else 0
-	T       *Tape
-	Stats   *Stats
+	T        *Tape
+	Stats    *Stats
 
 	trace    []string
 	sigH     uint64
@@ -401,8 +401,8 @@ func (r *Run) Step() {
 func (r *Run) Cell(format string, a ...any) {
 	r.Stats.Cells[fmt.Sprintf(format, a...)] = struct{}{}
 }
-func (r *Run) Probe(name string) { r.Stats.Probes[name]++ }
-func (r *Run) Fault(kind string) { r.Stats.Faults[kind]++ }
+func (r *Run) Probe(name string)     { r.Stats.Probes[name]++ }
+func (r *Run) Fault(kind string)     { r.Stats.Faults[kind]++ }
 func (r *Run) FaultConf(kind string) { r.Stats.FaultsConf[kind]++ }
 
 // Fail records the first violation of the run.
